@@ -208,6 +208,16 @@ func runC05(e *core.Env) {
 		g.K.LocQuery = e.Choose("gen", 2, "locq") == 1
 		g.K.LocChanges = e.Choose("gen", 3, "locchg") == 2
 		g.K.PartialEvery = []int{0, 0, 1, 2, 3}[e.Choose("gen", 5, "partial")]
+		// a registry may insist on its minimum (not together with partial acceptance, where it is the registry
+		// itself that makes chunks short)
+		minEnforce := e.Choose("gen", 2, "minenforce") == 1
+		// the chunk size and single-request limit may be configured for this host instead of globally
+		if e.Choose("gen", 3, "hostcfg") == 2 {
+			w.Chunk, w.MaxPut = 0, 0
+			w.Host("tgt.test").BlobChunk, w.Host("tgt.test").BlobMax = int64(chunk), int64(maxPut)
+			sample["chunk_configured"] = "per host"
+			e.Probe("chunk-size-configured-per-host")
+		}
 		g.K.RefuseMonoPut = e.Choose("gen", 4, "refusemono") == 3
 		if e.Choose("gen", 5, "putcut") == 4 {
 			// the single PUT is cut by an intermediary after the registry stored part of it
@@ -219,6 +229,9 @@ func runC05(e *core.Env) {
 				refusedNonSeekable = true // the stream cannot be sent again
 			}
 		}
+		// (also not when the registry side left the session at an odd offset, or with faults: the client then
+		// legitimately sends the rest of a chunk it had already cut)
+		g.K.ChunkMinEnforce = minEnforce && g.K.ChunkMin > 0 && g.K.PartialEvery == 0 && g.K.PutKeepsThenFails == 0 && !faulty
 		sample["server"] = fmt.Sprintf("%+v", g.K)
 		// a stream that cannot be rewound cannot be sent twice by any client: when the single
 		// request is refused (which the spec does not allow a registry to do) the documented
